@@ -63,7 +63,7 @@ func formOneErrorResult(err error) map[string]interface{} {
 	var e *Error
 	if errors.As(err, &e) {
 		em["message"] = e.Base.Error()
-		if 0 < e.Line || 0 < e.Column {
+		if 0 < e.Line && 0 < e.Column {
 			em["locations"] = []interface{}{map[string]interface{}{"line": e.Line, "column": e.Column}}
 		}
 		if 0 < len(e.Path) {
